@@ -320,4 +320,7 @@ def templates(tier, seed):
             for n in ((N,) if tier == "quick" else (1, 2, 3)):
                 ts.append(Template(f"DEPTH/{shape}/lazy={int(lazy)}/N={n}", depth_case, (shape, n, lazy)))
     ts.append(Template("PLD/get_validation_depth", polars_depth_case, ()))
+    import tmpl_pl
+
+    ts += [Template(tid, tmpl.pick(fn, ["depth"]), args) for tid, fn, args in tmpl_pl.depth_cases(tier)]
     return ts
